@@ -99,7 +99,7 @@ def expected_id(agent, turn, slot, text):
     return f"refl-{turn}-{agent}-{slot}-{h.hexdigest()[:12]}"
 
 
-def run_once(case, allow, fixture_lines, sess, vclock=None, record_key=None):
+def run_once(case, allow, fixture_lines, sess, vclock=None, record_key=None, then_closed=None):
     """One turn; returns dict of observations."""
     import clematis.engine.orchestrator.core as core
     import clematis.engine.orchestrator.reflection as RW
@@ -180,9 +180,22 @@ def run_once(case, allow, fixture_lines, sess, vclock=None, record_key=None):
             with patched(refl_mod, "reflect", reflect_w), patched(RW, "write_reflection_entries", write_w), patched(core, "log_t3_reflection", tel_w), \
                     patched(llm.FixtureLLMAdapter, "generate", gen_w):
                 r = env.run(case["agent"], case["text"], case["turn"], plan=plan, vclock=vc, ctx_extra=extra)
+                second = None
+                if then_closed is not None and not r["exc"]:
+                    # the next turn on the SAME ctx object (the repository's own tests drive several turns through one ctx),
+                    # with the gate closed by `then_closed` ("plan" = not requested, "config" = not allowed)
+                    n_adds, n_lines, n_reflect = len(idx.adds), len(env.records("t3_reflection.jsonl")), calls["reflect"]
+                    plan2 = dict(plan, reflection=False) if then_closed == "plan" else plan
+                    if then_closed == "plan":
+                        env.state["_planner_reflection_flag"] = False
+                    else:
+                        env.cfg["t3"]["allow_reflection"] = False
+                    t2n = case["turn"] + 1 if isinstance(case["turn"], int) else 2
+                    r2 = env.run(case["agent"], case["text"] + " again", t2n, plan=plan2, vclock=vc, ctx_extra=extra, ctx_obj=r["ctx"])
+                    second = {"exc": r2["exc"], "adds": len(idx.adds) - n_adds, "lines": len(env.records("t3_reflection.jsonl")) - n_lines, "reflect": calls["reflect"] - n_reflect}
             logs = env.logs()
             return {"r": r, "calls": calls, "adds": idx.adds, "attempts": idx.attempts, "refl_lines": env.records("t3_reflection.jsonl"),
-                    "canon": {k: env.canon(v) for k, v in logs.items() if k in CANON}, "line": r["line"], "now_iso": iso_from_ms(NOW_MS), "cfg": env.cfg}
+                    "canon": {k: env.canon(v) for k, v in logs.items() if k in CANON}, "line": r["line"], "now_iso": iso_from_ms(NOW_MS), "cfg": env.cfg, "second": second}
     finally:
         import shutil
         shutil.rmtree(fx_dir, ignore_errors=True)
@@ -262,6 +275,18 @@ def check_case(case, sess: Session):
             b = [(e.get("id"), e.get("ts"), e.get("text"), e.get("owner"), e.get("kind")) for e in o2["adds"]]
             if a != b:
                 sess.violation("entries-depend-on-wall-clock", tcase, {"a": a[:2], "b": b[:2]})
+    # --- the next turn on the same ctx object with the gate closed: nothing may be computed, written or logged
+    if fault is None and o["adds"]:
+        how = "plan" if chash(case) [-1] in "01234567" else "config"
+        fx2 = [{"prompt_hash": k, "completion": case["completion"]} for k in calls["keys"]] if case["backend"] == "llm" else None
+        o4 = run_once(case, True, fx2, sess, then_closed=how)
+        sec = o4.get("second") if isinstance(o4, dict) else None
+        if sec is not None and not sec["exc"]:
+            sess.count("reused_ctx_gate_closed_turns")
+            if sec["adds"] or sec["lines"] or sec["reflect"]:
+                sess.violation("reused-ctx:stale-reflection-written-with-gate-closed", tcase, {"closed_by": how, **sec})
+        elif sec is not None:
+            sess.violation("reflection-path-aborts-turn:reused-ctx", tcase, sec["exc"][:200])
     # --- follow-up in the same process (module state survives): the same prompt again, now with the fixture gone, must
     #     write nothing; and once the fixture is back it must write again (no positive / negative memoisation of outcomes)
     if fault is None and case["backend"] == "llm" and calls["keys"] and o["adds"]:
